@@ -4,7 +4,7 @@ from vlib.core import Case
 
 ID = "C13"
 LEAN_MODULE = "Ctrmml.Properties.C13"
-THEOREMS = ["C13_serialize_layout", "C13_walk_serialize", "C13_reserialize_id", "C13_no_oob", "C13_ofBytes_no_oob"]
+THEOREMS = ["C13_serialize_layout", "C13_walk_serialize", "C13_reserialize_id", "C13_no_oob", "C13_ofBytes_no_oob", "C13_walk_total"]
 LEVEL = "proof"
 STREAM = "riff.ops"
 CHUNK = 60
